@@ -2,8 +2,7 @@
 Model driver for C04 (errors unwind to the right handler; finally always runs).
 
 Requests
-  `run <g|s> <fuel> <prog>`   guide-level evaluator (`g` = the guide, `s` = with the F-C04-6
-                              stringification at `for`) on the program given as an S-expression.
+  `run g <fuel> <prog>`       guide-level evaluator on the program given as an S-expression.
   `mech <prog>`               mechanism model (`TryMech`): compile with the implementation's
                               try/catch/finally layout and run on the frame/catch-stack machine.
 Response (one line): the marker lines the program prints, separated by ` | `, then ` || ` and the
@@ -51,10 +50,6 @@ def ekText : EK → String
 def strText : Str → String
   | .lit n => s!"str{n}"
   | .err k => ekText k
-  | .dispNull => "null"
-  | .dispBool b => if b then "true" else "false"
-  | .dispInt i => s!"{i}"
-  | .dispObj c => s!"k{c}"
 
 /-- `{v}` in an interpolated string -/
 def dispTop : Val → String
@@ -199,8 +194,7 @@ def handle (line : String) : String :=
   | [.atom "run", .atom mode, fuel, p] =>
     match parseProg p, fuel.nat? with
     | some P, some n =>
-      let cfg : Cfg := { stringifyAtFor := mode == "s" }
-      outText (runProg cfg P n)
+      if mode == "g" then outText (runProg guide P n) else "bad-request"
     | _, _ => "bad-request"
   | [.atom "mech", fuel, p] =>
     match parseProg p, fuel.nat? with
